@@ -74,12 +74,41 @@ cpp/python/typescript, the literal loop are present.  A dropped loop or another 
 changes `Gen.Naming.intraLoops` and this `decide` no longer closes. -/
 theorem intra_loops_pinned : Gen.Naming.intraLoops = [
   ("cpp", [("literal", "cpp.enum_literal_name"), ("prop", "cpp.getter_name"), ("prop", "cpp.mutable_getter_name"), ("prop", "cpp.setter_name"), ("prop", "cpp.private_property_name"), ("method", "cpp.method_name")]),
-  ("csharp", [("prop", "csharp.property_name"), ("method", "csharp.method_name")]),
-  ("golang", [("prop", "golang.getter_name"), ("prop", "golang.setter_name"), ("method", "golang.method_name")]),
-  ("java", [("prop", "java.property_name"), ("method", "java.method_name")]),
+  ("csharp", [("literal", "csharp.enum_literal_name"), ("prop", "csharp.property_name"), ("method", "csharp.method_name")]),
+  ("golang", [("prop", "golang.getter_name"), ("prop", "golang.setter_name"), ("prop", "golang.private_property_name"), ("method", "golang.method_name")]),
+  ("java", [("literal", "java.enum_literal_name"), ("prop", "java.property_name"), ("prop", "java.getter_name"), ("prop", "java.setter_name"), ("method", "java.method_name")]),
   ("python", [("literal", "python.enum_literal_name"), ("prop", "python.property_name"), ("method", "python.method_name")]),
   ("typescript", [("literal", "typescript.enum_literal_name"), ("prop", "typescript.property_name"), ("method", "typescript.method_name")])
 ] := by decide
+
+/-- The other dictionaries of the SDK checks (regenerated from the source): which collections of the symbol table they
+walk and which naming function they apply — the one the generator of these declarations uses. -/
+theorem global_checks_pinned : Gen.Naming.globalChecks = [
+  ("cpp", [("constants:constant_name", [⟨"constants", "cpp.constant_name", [], [], [], []⟩]),
+    ("verification_functions:function_name", [⟨"verification_functions", "cpp.function_name", [], [], [], []⟩, ⟨"constrained_primitives", "cpp.function_name", [118, 101, 114, 105, 102, 121, 95], [], [], []⟩])]),
+  ("csharp", [("constants:property_name", [⟨"constants", "csharp.property_name", [], [], [], []⟩]),
+    ("verification_functions:method_name", [⟨"verification_functions", "csharp.method_name", [], [], [], []⟩, ⟨"constrained_primitives", "csharp.class_name", [], [], [86, 101, 114, 105, 102, 121], []⟩])]),
+  ("golang", [("constants:constant_name", [⟨"constants", "golang.constant_name", [], [], [], []⟩]),
+    ("verification_functions:function_name", [⟨"verification_functions", "golang.function_name", [], [], [], []⟩, ⟨"pattern_verification_functions", "golang.private_constant_name", [], [95, 114, 101], [], []⟩, ⟨"constrained_primitives", "golang.function_name", [118, 101, 114, 105, 102, 121, 95], [], [], []⟩, ⟨"enumerations", "golang.function_name", [118, 101, 114, 105, 102, 121, 95], [], [], []⟩, ⟨"concrete_classes", "golang.function_name", [118, 101, 114, 105, 102, 121, 95], [], [], []⟩]),
+    ("enumerations:private_constant_name", [⟨"enumerations", "golang.private_constant_name", [], [95, 102, 114, 111, 109, 95, 115, 116, 114, 105, 110, 103, 95, 109, 97, 112], [], []⟩]),
+    ("enumerations:function_name", [⟨"enumerations", "golang.function_name", [], [95, 102, 114, 111, 109, 95, 106, 115, 111, 110, 97, 98, 108, 101], [], []⟩, ⟨"classes", "golang.function_name", [], [95, 102, 114, 111, 109, 95, 106, 115, 111, 110, 97, 98, 108, 101], [], []⟩, ⟨"concrete_classes", "golang.private_function_name", [], [95, 116, 111, 95, 109, 97, 112], [], []⟩, ⟨"classes_with_descendants", "golang.private_function_name", [], [95, 102, 114, 111, 109, 95, 109, 97, 112], [], []⟩])]),
+  ("java", [("constants:property_name", [⟨"constants", "java.property_name", [], [], [], []⟩]),
+    ("verification_functions:method_name", [⟨"verification_functions", "java.method_name", [], [], [], []⟩, ⟨"pattern_verification_functions", "java.private_method_name", [99, 111, 110, 115, 116, 114, 117, 99, 116, 95], [], [], []⟩, ⟨"constrained_primitives", "java.class_name", [], [], [118, 101, 114, 105, 102, 121], []⟩])]),
+  ("python", [("constants:constant_name", [⟨"constants", "python.constant_name", [], [], [], []⟩]),
+    ("verification_functions:function_name", [⟨"verification_functions", "python.function_name", [], [], [], []⟩, ⟨"constrained_primitives", "python.function_name", [118, 101, 114, 105, 102, 121, 95], [], [], []⟩]),
+    ("enumerations:function_name", [⟨"enumerations", "python.function_name", [], [95, 102, 114, 111, 109, 95, 106, 115, 111, 110, 97, 98, 108, 101], [], []⟩, ⟨"classes", "python.function_name", [], [95, 102, 114, 111, 109, 95, 106, 115, 111, 110, 97, 98, 108, 101], [], []⟩])]),
+  ("typescript", [("constants:constant_name", [⟨"constants", "typescript.constant_name", [], [], [], []⟩]),
+    ("verification_functions:function_name", [⟨"verification_functions", "typescript.function_name", [], [], [], []⟩, ⟨"pattern_verification_functions", "typescript.function_name", [99, 111, 110, 115, 116, 114, 117, 99, 116, 95], [], [], []⟩, ⟨"constrained_primitives", "typescript.function_name", [118, 101, 114, 105, 102, 121, 95], [], [], []⟩])])
+] := by decide
+
+/-- Names derived from a member name inside the intra-structure loops (one dictionary each). -/
+theorem intra_derived_pinned : Gen.Naming.intraDerived = [
+  ("cpp", []),
+  ("csharp", []),
+  ("golang", []),
+  ("java", []),
+  ("python", []),
+  ("typescript", [("prop", ⟨"members", "typescript.method_name", [115, 101, 116, 95], [95, 102, 114, 111, 109, 95, 106, 115, 111, 110, 97, 98, 108, 101], [], []⟩)])] := by decide
 
 theorem intra_reported_all : ∀ t ∈ sdkTargets, intraReported t = true := by decide
 
@@ -87,35 +116,77 @@ theorem schema_checks_present :
     Gen.Naming.jsonDefinitionsChecked = true ∧ Gen.Naming.modelTypeChecked = true ∧
       Gen.Naming.xsdObservedChecked = true := by decide
 
+/-- The schema generators report two properties of a class with one JSON / XML name, and the XSD generator observes
+`xs:simpleType` and `xs:complexType` in one symbol space (the former findings C21-F18, F19, F29, F30). -/
+theorem schema_member_checks_present :
+    Gen.Naming.jsonPropertiesChecked = true ∧ Gen.Naming.xsdSequenceChecked = true ∧
+      Gen.Naming.xsdTypesShared = true := by decide
+
+/-- The targets which emit a `ModelType` enumeration among the types reserve its name (C21-F3, F10, F28). -/
+theorem model_type_reserved :
+    (∀ t ∈ sdkTargets, emitsModelTypeEnum t = true → modelTypeReserved t = true) ∧
+      Gen.Naming.modelTypeLiteralsReserved = true := by decide
+
 theorem all_reported (t : String) (mm : MM) : ∀ s ∈ checkedScopes t mm, s.reported = true := by
   intro s hs
   unfold checkedScopes at hs
   split at hs
-  · simp only [List.mem_cons, List.mem_nil_iff, or_false] at hs
-    rcases hs with rfl | rfl
-    · exact schema_checks_present.1
-    · show (Gen.Naming.jsonDefinitionsChecked && Gen.Naming.modelTypeChecked) = true
-      decide
+  · rcases List.mem_append.mp hs with hs | hs
+    · simp only [List.mem_cons, List.mem_nil_iff, or_false] at hs
+      rcases hs with rfl | rfl
+      · exact schema_checks_present.1
+      · show (Gen.Naming.jsonDefinitionsChecked && Gen.Naming.modelTypeChecked) = true
+        decide
+    · split at hs
+      · unfold jsonPropertyScopes at hs
+        obtain ⟨c, _, rfl⟩ := List.mem_map.mp hs
+        rfl
+      · exact absurd hs List.not_mem_nil
   · split at hs
-    · simp only [List.mem_map] at hs
-      obtain ⟨tag, _, rfl⟩ := hs
-      exact schema_checks_present.2.2
+    · rcases List.mem_append.mp hs with hs | hs
+      · rcases List.mem_append.mp hs with hs | hs
+        · split at hs
+          · rw [List.mem_singleton] at hs
+            subst hs
+            show (true && Gen.Naming.xsdObservedChecked) = true
+            decide
+          · obtain ⟨tag, _, rfl⟩ := List.mem_map.mp hs
+            exact schema_checks_present.2.2
+        · rw [List.mem_singleton] at hs
+          subst hs
+          exact schema_checks_present.2.2
+      · split at hs
+        · unfold xsdSequenceScopes at hs
+          obtain ⟨c, _, rfl⟩ := List.mem_map.mp hs
+          rfl
+        · exact absurd hs List.not_mem_nil
     · split at hs
       · next hsdk =>
         rcases List.mem_cons.mp hs with rfl | hs
         · rfl
-        · unfold intraScopes at hs
-          obtain ⟨ot, _, hot⟩ := List.mem_filterMap.mp hs
-          have hrep := intra_reported_all t hsdk
-          cases ot with
-          | enum e =>
-            simp only at hot
-            split at hot
-            · cases hot
-            · cases hot; exact hrep
-          | cprim n => cases hot
-          | cls c => cases hot; exact hrep
-      · cases hs
+        · rcases List.mem_append.mp hs with hs | hs
+          · unfold intraScopes at hs
+            obtain ⟨ot, _, hot⟩ := List.mem_flatMap.mp hs
+            have hrep := intra_reported_all t hsdk
+            cases ot with
+            | enum e =>
+              simp only at hot
+              split at hot
+              · exact absurd hot List.not_mem_nil
+              · rw [List.mem_singleton] at hot
+                subst hot
+                exact hrep
+            | cprim n => exact absurd hot List.not_mem_nil
+            | cls c =>
+              rcases List.mem_cons.mp hot with rfl | hot
+              · exact hrep
+              · unfold derivedPropScopes at hot
+                obtain ⟨kl, _, rfl⟩ := List.mem_map.mp hot
+                exact hrep
+          · unfold globalScopes at hs
+            obtain ⟨d, _, rfl⟩ := List.mem_map.mp hs
+            rfl
+      · exact absurd hs List.not_mem_nil
 
 /-- **C21 for the scopes the checks look at** (all eight targets): a passing check means that no two
 entities of a checked scope receive the same generated name. -/
@@ -132,68 +203,61 @@ theorem C21_checked_complete (t : String) (mm : MM) (s : Scope) (hs : s ∈ chec
 
 /-! ## Full strength: every scope the generators emit into
 
-```
+`emittedScopes t mm = checkedScopes t mm ++ uncheckedScopes t mm`, where the unchecked scopes are the families of
+generated names (`sdkFamilies`, hand-written from the GENERATORS with the naming functions they use; the JSON
+`properties`, the XSD `xs:sequence` and type symbol space) that the target's check — as regenerated from the source
+— does not cover.  Until the repairs of C21-F1 … C21-F37 this list was not empty (constants, verification functions,
+constrained primitives, C#/Java literals, accessors, private fields, helper names derived from the type names with a
+coarser conversion, the reserved `ModelType`, JSON properties, XSD sequences and types), the full statement was false
+(`C21_full_fails`) and only `C21_partial` (extra hypothesis "no collision in an unchecked scope") held.  On the
+repaired source every family is covered: -/
+
+/-- Every family of names the SDK generators derive from the meta-model is looked at by the target's check, with the
+naming function of the generator (`decide` over the regenerated description of the checks). -/
+theorem families_covered : ∀ t ∈ sdkTargets, (sdkFamilies t).all (fun f => f.covered) = true := by decide
+
+theorem unchecked_nil (t : String) (mm : MM) : uncheckedScopes t mm = [] := by
+  unfold uncheckedScopes
+  split
+  · next hsdk =>
+    rw [List.flatMap_eq_nil_iff]
+    intro f hf
+    have hc : f.covered = true := List.all_eq_true.mp (families_covered t hsdk) f hf
+    rw [if_pos hc]
+  · split
+    · rw [if_pos schema_member_checks_present.1]
+    · split
+      · rw [if_pos schema_member_checks_present.2.2, if_pos schema_member_checks_present.2.1]
+        rfl
+      · rfl
+
+/-- **C21** (all eight targets, every scope the generators emit into): if the target's check passes, no two entities
+of any emitted scope receive the same generated name. -/
 theorem C21_full (t : String) (mm : MM) (h : verify t mm = .ok ()) :
-    ∀ s ∈ emittedScopes t mm, ∀ ns, scopeNames s = .ok ns → ns.Nodup
-```
-is false of the faithful model: constants, verification functions (all SDK targets), enumeration literals
-(C#, Java), JSON properties and XSD sequence elements / the shared type symbol space are never checked
-(known findings C21-F*).  Negation witness, then the partial theorem whose extra hypothesis is exactly
-"no collision in an unchecked scope". -/
-
-def witnessMM : MM :=
-  { types := [.cls { name := Text.ofString "Something", abstract := false, hasDesc := false, used := false,
-                     props := [Text.ofString "x"], ownProps := [Text.ofString "x"], methods := [] }],
-    consts := [Text.ofString "Some_const", Text.ofString "Some_Const"],
-    funcs := [] }
-
-theorem C21_full_fails :
-    ¬ ∀ (t : String) (mm : MM), verify t mm = .ok () →
-        ∀ s ∈ emittedScopes t mm, ∀ ns, scopeNames s = .ok ns → ns.Nodup := by
-  intro h
-  have h1 : verify "python" witnessMM = .ok () := by decide
-  have := h "python" witnessMM h1
-    { kind := "constants", owner := [],
-      ents := [{ fn := "python.constant_name", ident := Text.ofString "Some_const" },
-               { fn := "python.constant_name", ident := Text.ofString "Some_Const" }],
-      reported := false }
-    (by decide) [Text.ofString "SOME_CONST", Text.ofString "SOME_CONST"] (by decide)
-  revert this
-  decide
-
-theorem uncheckedCollisions_ok (t : String) (mm : MM) (h : uncheckedCollisions t mm = .ok ()) :
-    ∀ s ∈ uncheckedScopes t mm, ∃ ns, scopeNames s = .ok ns ∧ ns.Nodup := by
-  unfold uncheckedCollisions at h
-  split at h
-  · cases h
-  · next l hl =>
-    simp only at h
-    split at h
-    · next hnil =>
-      intro s hs
-      obtain ⟨ns, h1, h2⟩ := resolve_ok_forward hl s hs
-      refine ⟨ns, h1, ?_⟩
-      rw [List.flatMap_eq_nil_iff] at hnil
-      have := hnil (s, ns) h2
-      simp only [List.map_eq_nil_iff] at this
-      exact (dups_nil_iff ns).mp this
-    · cases h
-
-/-- **C21, partial**: when additionally the scopes that no check covers are collision-free
-(`uncheckedCollisions t mm = .ok ()`, a decidable predicate evaluated by the driver), a passing check means
-that no two entities of any emitted scope share a generated name. -/
-theorem C21_partial (t : String) (mm : MM) (h : verify t mm = .ok ())
-    (hun : uncheckedCollisions t mm = .ok ()) :
     ∀ s ∈ emittedScopes t mm, ∃ ns, scopeNames s = .ok ns ∧ ns.Nodup := by
   intro s hs
   unfold emittedScopes at hs
-  rcases List.mem_append.mp hs with hs | hs
-  · exact C21_checked t mm h s hs
-  · exact uncheckedCollisions_ok t mm hun s hs
+  rw [unchecked_nil, List.append_nil] at hs
+  exact C21_checked t mm h s hs
 
-/-- Non-vacuity: a model with two enumerations, a hierarchy, constants and functions passes both. -/
+/-- … and a collision in any emitted scope is reported (or the check crashes in a naming function's `@require`). -/
+theorem C21_full_complete (t : String) (mm : MM) (s : Scope) (hs : s ∈ emittedScopes t mm)
+    (ns : List Text) (hns : scopeNames s = .ok ns) (hdup : ¬ ns.Nodup) :
+    (∃ cs, verify t mm = .err cs ∧ cs ≠ []) ∨ (∃ site, verify t mm = .crash site) := by
+  unfold emittedScopes at hs
+  rw [unchecked_nil, List.append_nil] at hs
+  exact C21_checked_complete t mm s hs ns hns hdup
+
+/-- The driver's `unchecked` request (collisions in scopes no check covers) therefore always answers `ok`. -/
+theorem uncheckedCollisions_trivial (t : String) (mm : MM) : uncheckedCollisions t mm = .ok () := by
+  unfold uncheckedCollisions
+  rw [unchecked_nil]
+  rfl
+
+/-- Non-vacuity: a model with two enumerations, a hierarchy, constants and functions passes all eight checks. -/
 def sampleMM : MM :=
   { types := [.enum { name := Text.ofString "Color_kind", used := true, literals := [Text.ofString "Red_one", Text.ofString "Green"] },
+              .cprim (Text.ofString "Non_empty"),
               .cls { name := Text.ofString "Base_thing", abstract := true, hasDesc := true, used := false,
                      props := [Text.ofString "base_prop"], ownProps := [Text.ofString "base_prop"], methods := [] },
               .cls { name := Text.ofString "Leaf_thing", abstract := false, hasDesc := false, used := false,
@@ -201,7 +265,11 @@ def sampleMM : MM :=
                      methods := [Text.ofString "do_it"] }],
     consts := [Text.ofString "Some_const"], funcs := [Text.ofString "matches_something"] }
 
-example : ∀ t ∈ targets, verify t sampleMM = .ok () ∧ uncheckedCollisions t sampleMM = .ok () := by decide
+example : ∀ t ∈ targets, verify t sampleMM = .ok () := by decide
+
+def isErr : Res (List Collision) Unit → Bool
+  | .err _ => true
+  | _ => false
 
 /-- … and the checks do fire: `some_Url` / `some_url` collide in all six SDK targets (`some_URL` would not in Go, which keeps abbreviations). -/
 def collidingMM : MM :=
@@ -209,11 +277,58 @@ def collidingMM : MM :=
                      props := [Text.ofString "some_Url", Text.ofString "some_url"], ownProps := [], methods := [] }],
     consts := [], funcs := [] }
 
-def isErr : Res (List Collision) Unit → Bool
-  | .err _ => true
-  | _ => false
-
 example : ∀ t ∈ sdkTargets, isErr (verify t collidingMM) = true := by decide
+
+/-! The witnesses of the repaired findings are rejected by the model of the repaired checks (with the regenerated
+tables of a tree without the repair these `decide`s fail). -/
+
+def leaf (n : String) (ps : List String) : OurType :=
+  .cls { name := Text.ofString n, abstract := false, hasDesc := false, used := false,
+         props := ps.map Text.ofString, ownProps := ps.map Text.ofString, methods := [] }
+
+/-- constants `Some_const` / `Some_Const` (F1 F4 F7 F13 F20 F25), functions `matches_x` / `matches_X` (F2 F5 F8 F14
+F21 F26), constrained primitives `Some_thing` / `Some_Thing` (F31–F37): all six SDK targets. -/
+example : ∀ t ∈ sdkTargets,
+    isErr (verify t { types := [leaf "Something" ["x"]], consts := [Text.ofString "Some_const", Text.ofString "Some_Const"], funcs := [] }) = true
+    ∧ isErr (verify t { types := [leaf "Something" ["x"]], consts := [], funcs := [Text.ofString "matches_x", Text.ofString "matches_X"] }) = true
+    ∧ isErr (verify t { types := [.cprim (Text.ofString "Some_thing"), .cprim (Text.ofString "Some_Thing"), leaf "Holder" ["a"]], consts := [], funcs := [] }) = true := by
+  decide
+
+/-- enumeration literals `Red_one` / `Red_One` in C# and Java (F6 F15); `_url` / `URL` in Java and TypeScript (F16 F17
+F27) and `url` / `URL` in Golang (F9); the functions `_matches_x` / `matches_x` in Java and TypeScript. -/
+example :
+    (∀ t ∈ ["csharp", "java"], isErr (verify t
+      { types := [.enum { name := Text.ofString "Color", used := false, literals := [Text.ofString "Red_one", Text.ofString "Red_One"] },
+                  leaf "Something" ["x"]], consts := [], funcs := [] }) = true)
+    ∧ (∀ t ∈ ["java", "typescript"], isErr (verify t { types := [leaf "Thing" ["_url", "URL"]], consts := [], funcs := [] }) = true)
+    ∧ isErr (verify "golang" { types := [leaf "Thing" ["url", "URL"]], consts := [], funcs := [] }) = true
+    ∧ (∀ t ∈ ["java", "typescript"], isErr (verify t
+        { types := [leaf "Something" ["x"]], consts := [], funcs := [Text.ofString "_matches_x", Text.ofString "matches_x"] }) = true) := by
+  decide
+
+/-- names derived from type names (F11 F12 F22 F23 F24), the reserved `ModelType` (F3 F10 F28). -/
+example :
+    isErr (verify "golang" { types := [.cprim (Text.ofString "Non_empty"), leaf "Non_Empty" ["x"]], consts := [], funcs := [] }) = true
+    ∧ (∀ t ∈ ["golang", "python"], isErr (verify t
+        { types := [.enum { name := Text.ofString "Color", used := false, literals := [Text.ofString "Red"] },
+                    .enum { name := Text.ofString "COLOR", used := false, literals := [Text.ofString "Red"] },
+                    leaf "Something" ["x"]], consts := [], funcs := [] }) = true)
+    ∧ isErr (verify "python" { types := [leaf "Some_URL" ["x"], leaf "Some_Url" ["y"]], consts := [], funcs := [] }) = true
+    ∧ isErr (verify "golang" { types := [leaf "Color" ["x"], leaf "COLOR" ["y"]], consts := [], funcs := [] }) = true
+    ∧ (∀ t ∈ ["cpp", "golang", "typescript"], isErr (verify t { types := [leaf "Model__type" ["x"]], consts := [], funcs := [] }) = true)
+    ∧ isErr (verify "golang" { types := [leaf "Foo" ["x"], leaf "Model_type_foo" ["y"]], consts := [], funcs := [] }) = true := by
+  decide
+
+/-- JSON properties and XSD sequence elements `a__b` / `a_b` (F18 F19 F29), an enumeration and a class that share the
+XSD type name `color_t` (F30). -/
+example :
+    (∀ t ∈ ["jsonschema", "xsd"], isErr (verify t { types := [leaf "Something" ["a__b", "a_b"]], consts := [], funcs := [] }) = true)
+    ∧ isErr (verify "xsd"
+        { types := [.enum { name := Text.ofString "Color", used := true, literals := [Text.ofString "Red"] },
+                    .cls { name := Text.ofString "COLOR", abstract := false, hasDesc := false, used := false,
+                           props := [Text.ofString "c"], ownProps := [Text.ofString "c"], methods := [] }],
+          consts := [], funcs := [] }) = true := by
+  decide
 
 /-! ## Facts about the conversions -/
 
